@@ -68,7 +68,7 @@ Proof. exact canonical_file_in_grammar. Qed.
 
 (* the derive builds only checked trees from clean names: for EVERY environment whose definitions pass the boolean
    `def_cleanb` (Spec/GenClean.v: declarable type and parameter names; property names, variant names and tag keys that
-   need no escaping; no `type = ".."` text; `flatten` of structs with fields of their own; every shape, generics with defaults, `as`, `inline`,
+   need no escaping; no `type = ".."` text; `flatten` of structs with fields of their own and of enums into hosts with a field of their own; every shape, generics with defaults, `as`, `inline`,
    `optional`, the four enum representations, `skip`, `untagged`, documentation of ANY content), every definition of it and
    every fuel: if decl() answers, the declaration passes the check and its documentation is one comment block .. *)
 Theorem C04_generated_declaration_is_checked :
@@ -144,7 +144,11 @@ Definition Host := DStruct (ca "Host" None [])
   (SNamed [fd "z" (RLeaf LBool) false NotOptional [];
            {| f_ident := l "i"; f_ty := RWrap (RNamed (l "Inner") [RLeaf LString]); f_serde_ty := RLeaf LUnit; f_rename := None; f_skip := false;
               f_inline := false; f_flatten := true; f_optional := NotOptional; f_type := None; f_docs := []; f_skip_none := false |}]).
-Definition R : env := [(l "Inner"%string, Inner); (l "Outer"%string, Outer); (l "Host"%string, Host)].
+Definition Host2 := DStruct (ca "Host2" None [])
+  (SNamed [fd "id" (RLeaf LString) false NotOptional [];
+           {| f_ident := l "o"; f_ty := RNamed (l "Outer") []; f_serde_ty := RLeaf LUnit; f_rename := None; f_skip := false;
+              f_inline := false; f_flatten := true; f_optional := NotOptional; f_type := None; f_docs := []; f_skip_none := false |}]).
+Definition R : env := [(l "Inner"%string, Inner); (l "Outer"%string, Outer); (l "Host"%string, Host); (l "Host2"%string, Host2)].
 End C04_clean.
 Example C04_clean_nonvacuous :
   clean_envb is_ascii_upper C04_clean.al is_ascii_digit C04_clean.R = true /\
@@ -161,6 +165,8 @@ Example C04_clean_nonvacuous :
  * / x
  */
 ""first-name"": string, n?: string, };"%string) /\
+  (exists dc, decl_of is_ascii_upper C04_clean.al is_ascii_digit C04_clean.R 5 C04_clean.Host2 = Ok dc /\
+              starts_with (lit "type Host2 = { id: string, } & ({ ""kind"": ""A"","%string) (print_decl dc) = true) /\
   export_string is_ascii_upper C04_clean.al is_ascii_digit C04_clean.R true [lit "w"%string] 5 (RNamed (lit "Outer"%string) []) (lit "./bindings"%string) =
     Ok (NOTE ++ lit "import type { Inner } from ""./Inner.js"";
 
@@ -173,7 +179,7 @@ export type Outer = { ""kind"": ""A"", inner: {
  */
 ""first-name"": number, n?: string, }, other: Inner<boolean>, } | { ""kind"": ""b c"" };
 "%string).
-Proof. split; [vm_compute; reflexivity|]. split; [vm_compute; reflexivity|]. split; [eexists; vm_compute; reflexivity|]. split; [vm_compute; reflexivity|]. vm_compute. reflexivity. Qed.
+Proof. split; [vm_compute; reflexivity|]. split; [vm_compute; reflexivity|]. split; [eexists; vm_compute; reflexivity|]. split; [vm_compute; reflexivity|]. split; [eexists; split; vm_compute; reflexivity|]. vm_compute. reflexivity. Qed.
 
 (* the check is satisfiable by a declaration with documentation, quoted keys, a mapped type, a union of
    literals, a defaulted parameter; and it rejects a name holding a double quote and a reserved word *)
